@@ -82,3 +82,17 @@ contract(F + "ListGrader.validate_submission", props=["C05", "C01"],
     exsures={"ConfigError": "EXPECTED != len(student_list)"},
     ensures=["EXPECTED == len(student_list)", "is_none(result)"],
     modifies=[])
+
+
+# ---- get_padded_lists (C05): both results have the longer length, start with the original items, and the originals are not written
+contract(F + "get_padded_lists", props=["C05"],
+    requires=["is_list(list1) and is_list(list2)"],
+    callees={"_AutomaticFailure": dict(params=[], ensures=["is_object(result) and fresh(result)"], modifies=[], note="the padding sentinel: a new object")},
+    ensures=["is_tuple(result) and len(result) == 2", "is_list(result[0]) and is_list(result[1]) and fresh(result[0]) and fresh(result[1])",
+             "len(result[0]) == len(result[1])", "len(result[0]) == (len(list1) if len(list1) >= len(list2) else len(list2))",
+             "forall(range(len(list1)), lambda i: same(result[0][i], list1[i]))", "forall(range(len(list2)), lambda i: same(result[1][i], list2[i]))",
+             # the padding items are not items of the other list (they are automatic failures, never a student's input or an answer)
+             "forall(range(len(list1), len(result[0])), lambda i: is_object(result[0][i]) and fresh(result[0][i]))",
+             "forall(range(len(list2), len(result[1])), lambda i: is_object(result[1][i]) and fresh(result[1][i]))"],
+    modifies=[])
+
